@@ -4,7 +4,7 @@
    Proved here: the tree does not depend on the order in which a batch of distinct equal-length leaves
    is handed to batch insertion. *)
 From Coq Require Import List Bool NArith Permutation.
-From Akd Require Import NodeLabel ElemSet Hashing Tree Insert InsertFacts InsertRefine SpecFacts Spec.
+From Akd Require Import Bits NodeLabel ElemSet Hashing Tree Insert InsertFacts InsertRefine SpecFacts Spec ParallelIns.
 Import ListNotations.
 Open Scope N_scope.
 
@@ -54,3 +54,35 @@ Theorem C14_sub_batches : forall empty, canonical empty = false -> forall ps roo
                  batch_insert empty (root, latest, num) (concat ps) = Some (r, latest + 1, n').
 Proof. exact pieces_as_one. Qed.
 Print Assumptions C14_sub_batches.
+
+(* ---- parallel insertion (ParallelIns.v).  The two children of an interior node are handled
+   independently (the left one in a spawned task); the values they compute are those of the pure
+   model; what a parallel run can change is the order in which their node records reach the shared
+   store.  The node labels of the two sides are disjoint, and writes to disjoint key sets commute
+   under every interleaving: the store is that of the sequential run (left, then right), and what a
+   side reads of its own keys meanwhile does not depend on the other side's progress. *)
+Theorem C14_sides_disjoint : forall l le mde a b,
+  wf_sub (Node l le mde (Some a) (Some b)) = true ->
+  forall x y, In x (node_labels a) -> In y (node_labels b) -> bits_of x <> bits_of y.
+Proof. exact sides_disjoint. Qed.
+Print Assumptions C14_sides_disjoint.
+
+Theorem C14_disjoint_writes_commute : forall (V : Type) w1 w2 w st,
+  interleave V w1 w2 w -> (forall k, In k (keys V w1) -> ~ In k (keys V w2)) ->
+  forall k, apply_writes V w st k = apply_writes V (w1 ++ w2) st k.
+Proof. exact disjoint_writes_commute. Qed.
+Print Assumptions C14_disjoint_writes_commute.
+
+Theorem C14_parallel_sides_as_sequential : forall (V : Type) l le mde a b (wa wb w : list (bits * V)) st,
+  wf_sub (Node l le mde (Some a) (Some b)) = true ->
+  (forall k, In k (keys V wa) -> exists x, In x (node_labels a) /\ k = bits_of x) ->
+  (forall k, In k (keys V wb) -> exists y, In y (node_labels b) /\ k = bits_of y) ->
+  interleave V wa wb w ->
+  forall k, apply_writes V w st k = apply_writes V (wa ++ wb) st k.
+Proof. exact parallel_sides_as_sequential. Qed.
+Print Assumptions C14_parallel_sides_as_sequential.
+
+Theorem C14_own_keys_unaffected : forall (V : Type) w_other st k,
+  ~ In k (keys V w_other) -> apply_writes V w_other st k = st k.
+Proof. exact own_keys_unaffected. Qed.
+Print Assumptions C14_own_keys_unaffected.
